@@ -561,7 +561,12 @@ class IncrementalExecutor(Executor[DeliveryGroupMap]):
         filtered_tasks: list[ExecutionGroup] = []
         for task in tasks:
             if has_nulled_position(task.path):
-                self.settle_abort_result(task.computation.abort(cancellation_reason))
+                computation = task.computation
+                pending_future = computation.pending_future
+                self.settle_abort_result(computation.abort(cancellation_reason))
+                if pending_future is not None:
+                    # the cancelled computation still needs to unwind
+                    self.settle_in_background([pending_future])
             else:
                 filtered_tasks.append(task)
 
